@@ -34,6 +34,7 @@ func checkC17(p *Prog, r *Report) {
 	r.rule("C17.H4", "the blocking <-timer.C is guarded by !stopped && !drained, stopped := timer.Stop() just before; drained = true opens the timer arm; drained = false follows every Reset", 3)
 	r.rule("C17.H7", "submitting never blocks: every send on the wake-up channel chPrependNotify is non-blocking (= C13.W8) — Put is called from inside running tasks (the session updater re-submits itself), so a Put that waits for the forwarder, which waits for that worker, stops the scheduler for good", 1)
 	r.rule("C17.H6", "the deadline a task is scheduled for is the deadline it was submitted with: the ts of a timedFunc is set once, in Put, from Put's deadline parameter as it is (never reassigned, clamped or rounded), and stored nowhere else", 1)
+	r.rule("C17.H8", "a scheduler always has workers: NewTimedSched starts one sched goroutine per unit of its parameter (a loop that runs exactly `parallel` times around `go ts.sched()`) and one prepend goroutine; with fewer, NewTimedSched(1) accepts tasks that nothing ever runs", 2)
 	r.rule("C17.H5", "Put appends under prependLock and then always signals (non-blocking send, channel capacity >= 1); the only receive from the signal channel is followed by taking the whole slice under the lock; prepend forwards every element, leaving only on die", 5)
 
 	sched := p.FuncByName("(*TimedSched).sched")
@@ -528,6 +529,9 @@ func checkC17(p *Prog, r *Report) {
 		}
 	}
 
+	// ---- H8
+	checkWorkersStarted(p, r)
+
 	// ---- H5
 	checkSchedHandOff(p, r, put, prepend)
 }
@@ -984,4 +988,107 @@ func isTopLevelArm(p *Prog, fi *FuncInfo, b *cfg.Block) bool {
 		}
 	}
 	return true
+}
+
+// checkWorkersStarted: C17.H8.
+func checkWorkersStarted(p *Prog, r *Report) {
+	ctor := p.FuncByName("NewTimedSched")
+	if ctor == nil || ctor.Decl == nil {
+		r.bad("C17.H8", "NewTimedSched", "-", "workers", "constructor not found", "")
+		return
+	}
+	var par *types.Var
+	if pl := ctor.Decl.Type.Params.List; len(pl) > 0 && len(pl[0].Names) > 0 {
+		par, _ = p.Info.Defs[pl[0].Names[0]].(*types.Var)
+	}
+	sched, prepend := p.TryMethod("TimedSched", "sched"), p.TryMethod("TimedSched", "prepend")
+	nSched, nPre := 0, 0
+	okSched, okPre := false, false
+	why := ""
+	inspectBody(ctor, func(n ast.Node) bool {
+		g, ok := n.(*ast.GoStmt)
+		if !ok {
+			return true
+		}
+		switch p.Callee(g.Call) {
+		case prepend:
+			nPre++
+			okPre = enclosingLoop(p, g) == nil && len(p.CFG(ctor).DominatingConds(mustPoint(p.CFG(ctor), g))) == 0
+		case sched:
+			nSched++
+			loop := enclosingLoop(p, g)
+			if loop == nil {
+				why = "go sched() is not in a loop over the parameter"
+				return true
+			}
+			var trips *Linear
+			switch l := loop.(type) {
+			case *ast.RangeStmt:
+				if tv := p.Info.TypeOf(l.X); tv != nil && isIntegerType(tv) {
+					trips = Lin(p.Term(l.X))
+				}
+			case *ast.ForStmt:
+				// for i := a; i < N; i++   (or i <= N, i != N)
+				if as, ok := l.Init.(*ast.AssignStmt); ok && len(as.Lhs) == 1 && len(as.Rhs) == 1 {
+					if id, ok := as.Lhs[0].(*ast.Ident); ok {
+						iv, _ := p.Info.Defs[id].(*types.Var)
+						_, isInc := p.incBy1(l.Post)
+						if be, ok := l.Cond.(*ast.BinaryExpr); ok && iv != nil && isInc {
+							lt, rt := p.Term(be.X), p.Term(be.Y)
+							if lt.Op == "var" && lt.Obj == types.Object(iv) {
+								t := newLinear()
+								t.addScaled(Lin(rt), 1)
+								t.addScaled(Lin(p.Term(as.Rhs[0])), -1)
+								switch be.Op.String() {
+								case "<", "!=":
+									trips = t
+								case "<=":
+									t.C++
+									trips = t
+								}
+							}
+						}
+					}
+				}
+			}
+			if trips == nil {
+				why = "the trip count of the loop around go sched() is not understood"
+				return true
+			}
+			want := newLinear()
+			if par != nil {
+				want = Lin(tVar(par))
+			}
+			// the loop body must start the worker unconditionally
+			c := p.CFG(ctor)
+			conds := c.localDominatingConds(mustPoint(c, g))
+			extra := 0
+			for _, cd := range conds {
+				if lc := loopCond(loop); lc != nil && p.Term(lc).Key() == cd.Key() {
+					continue
+				}
+				extra++
+			}
+			if trips.Equal(want) && extra == 0 && enclosingLoop(p, loop) == nil {
+				okSched = true
+			} else {
+				why = fmt.Sprintf("the loop around go sched() runs %s times (conditions inside: %d), not `parallel` times", pretty(trips.String()), extra)
+			}
+		}
+		return true
+	})
+	if nSched == 1 && okSched {
+		r.ok("C17.H8", ctor.Name, p.Pos(ctor.Node), "sched workers", "one go sched() in a loop that runs exactly `parallel` times")
+	} else {
+		if why == "" {
+			why = fmt.Sprintf("%d go sched() statements", nSched)
+		}
+		r.bad("C17.H8", ctor.Name, p.Pos(ctor.Node), "sched workers", why+": a scheduler built with a small parameter has no worker — Put succeeds and the function is never run, whatever its deadline", "")
+	}
+	r.check(nPre == 1 && okPre, "C17.H8", ctor.Name, p.Pos(ctor.Node), "prepend forwarder", "one unconditional go prepend()", "the forwarding goroutine is not started exactly once and unconditionally: submitted tasks never reach the workers")
+}
+
+func mustPoint(c *CFG, n ast.Node) Point {
+	pt, _ := c.PointOf(n)
+	return pt
 }
